@@ -49,7 +49,7 @@ META = {
 THEOREMS = [
     "r_norm", "vis_viva", "h_norm2", "h_unit", "r_dot_v",
     "recover_a", "recover_e", "recover_i", "recover_Omega", "recover_E", "recover_omega",
-    "elements_roundtrip", "elements_roundtrip_mod2pi", "state_roundtrip",
+    "elements_roundtrip", "elements_roundtrip_mod2pi", "principal_ranges", "state_roundtrip",
     "true_anomaly_is_polar_angle", "true_anomaly_half_angle", "kepler_equation", "kepler_equation_unique",
     "model_exprs_ok", "check_k2t_sound", "check_t2k_sound", "gm_positive",
 ]
@@ -200,6 +200,50 @@ def gen_state(rng, gm):
             return s
 
 
+DELTAS = [1e-3, 1e-4, 6e-5, 3e-5, 1e-5, 1e-6, 1e-8, 1e-10]
+
+
+def true_anomaly_of(e, E):
+    return math.atan2(math.sqrt(1 - e * e) * math.sin(E), math.cos(E) - e)
+
+
+def directed_elements():
+    """deterministic boundary corpus: list of (elements, description).  Angles are given in [0, 2 pi) (the property's range);
+    `pi -+ delta` are the wrap points of the angles the code returns in (-pi, pi]."""
+    combos = [(26559.7e3, 0.01, 0.9599), (7000e3, 0.001, 2.4), (42164e3, 0.3, 0.01), (24000e3, 0.74, PI - 0.01),
+              (6600e3, 0.95, 1.1), (60000e3, 0.5, PI / 2)]
+    base_angles = (1.0, 4.0, 2.0)            # Omega, omega, E when not the angle under test
+    outl = []
+    c = 0
+    for d in DELTAS:
+        for pos, name in ((2 * PI - d, "2pi-"), (d, "0+"), (PI - d, "pi-"), (PI + d, "pi+")):
+            for slot, an in ((3, "Omega"), (4, "omega"), (5, "E")):
+                a, e, inc = combos[c % len(combos)]
+                c += 1
+                k = [a, e, inc, *base_angles]
+                k[slot] = pos
+                outl.append((np.array(k), f"{an} = {name}{d:g}"))
+        # argument of latitude u = omega + f across +-pi (the arctan2 cut of u) and across 0
+        for target, name in ((PI - d, "pi-"), (PI + d, "pi+"), (2 * PI - d, "2pi-"), (d, "0+")):
+            a, e, inc = combos[c % len(combos)]
+            c += 1
+            E = 2.0 if c % 2 else 5.0
+            om = (target - true_anomaly_of(e, E)) % (2 * PI)
+            outl.append((np.array([a, e, inc, 1.0, om, E]), f"u = {name}{d:g}"))
+        # perigee marginally before / after the node together with the anomaly at the apsides
+        a, e, inc = combos[c % len(combos)]
+        c += 1
+        outl.append((np.array([a, e, inc, 2 * PI - d, 2 * PI - d, PI + d]), f"all = wrap-{d:g}"))
+        outl.append((np.array([a, e, inc, d, d, d]), f"all = 0+{d:g}"))
+    # edges of the domain in e, i, a (all combinations), perigee next to the node
+    for e in (E_MIN, E_MAX):
+        for inc in (I_MIN, I_MAX):
+            for a in (A_MIN, A_MAX):
+                outl.append((np.array([a, e, inc, 5.5, 2 * PI - 2e-5, 3.5]), f"domain e={e:g} i={inc:g} a={a:g}"))
+                outl.append((np.array([a, e, inc, 0.5, 1e-6, 0.0]), f"domain e={e:g} i={inc:g} a={a:g} E=0"))
+    return outl
+
+
 # ----------------------------------------------------------------------------- the run
 def run(ctx):
     regen(ctx)
@@ -242,23 +286,13 @@ def run(ctx):
         fam["anom"].add(emit.pair(emit.dy(e), emit.dy(E), emit.dy(M), emit.dy(f)),
                         dict(rep, check="Kepler's equation / true anomaly / half-angle", e=float(e), E=float(E), M=float(M), f=float(f)))
 
-    # ---- A. single states from elements: every octant combination of (Omega, omega, E)
-    n_single = 512 if q else 512 * 6
-    for idx in range(n_single):
-        k, oc = gen_elements(rng, idx)
-        ctx.count(f"octants:Omega{oc[0]}")
-        ctx.count(f"octants:omega{oc[1]}")
-        ctx.count(f"octants:E{oc[2]}")
-        ctx.count("e<0.03" if k[1] < 0.03 else "e>0.9" if k[1] > 0.9 else "e:mid")
-        ctx.count("retrograde" if k[2] > PI / 2 else "prograde")
-        raw = (idx % 4 == 3)        # every fourth case through the bare functions instead of the attributes
-        rep = dict(kind="single", via="transformation.kepler2trs/trs2kepler" if raw else "PosVel attributes", octants=list(oc),
-                   how="PosVel(k, system='kepler').trs -> PosVel(s, system='trs').kepler -> .trs, .M, .f")
+    def single(k, rep, raw, idx, tag):
+        """one element set through kepler2trs -> trs2kepler -> kepler2trs (+ .M / .f), all oracles"""
         try:
             p = PosVel(fresh(k), system="kepler")
             s = out(transformation.kepler2trs(p)) if raw else out(p.trs)
             if not shape_check("kepler2trs of a single state", s, (6,), rep):
-                continue
+                return
             add_forward(k, s, rep)
             t = PosVel(fresh(s), system="trs")
             if raw:
@@ -268,7 +302,7 @@ def run(ctx):
                 kk = t.kepler
                 k2 = out(kk)
             if not shape_check("trs2kepler of a single state", k2, (6,), rep):
-                continue
+                return
             add_backward(s, k2, rep)
             s2 = out(transformation.kepler2trs(kk)) if raw else out(kk.trs)
             if shape_check("state -> elements -> state", s2, (6,), rep):
@@ -279,11 +313,80 @@ def run(ctx):
                 add_anom(k[1], k[5], float(p.M), float(p.f), dict(rep, elements=fl(k)))
         except Exception as e:   # an exception on a valid orbit is outside the model
             crash(dict(rep, elements=fl(k)), e)
-            continue
-        ctx.case(("A", tuple(hexes(k))), nontrivial=True, sample=dict(elements=fl(k), state=fl(s), back=fl(k2)) if idx < 2 else None)
+            return
+        ctx.case((tag, tuple(hexes(k))), nontrivial=True, sample=dict(elements=fl(k), state=fl(s), back=fl(k2)) if (tag == "A" and idx < 2) else None)
+
+    def array_case(rows, rep, j):
+        """(n, 6) elements -> (n, 6) states -> (n, 6) elements; row by row the same oracles"""
+        n = len(rows)
+        ks = np.array(rows)
+        try:
+            p = PosVel(fresh(ks), system="kepler")
+            ss = out(p.trs)
+            Ms, fs = out(p.M), out(p.f)
+            shape_check("kepler2trs of an (n,6) array", ss, (n, 6), dict(rep, elements=[fl(r) for r in rows]))
+            ss2d = ss.reshape(n, 6) if ss.size == n * 6 else None
+            if ss2d is None:
+                return
+            for i in range(n):
+                add_forward(ks[i], ss2d[i], dict(rep, row=i))
+            if Ms.size == n and fs.size == n:
+                for i in range(n):
+                    add_anom(ks[i][1], ks[i][5], Ms.ravel()[i], fs.ravel()[i], dict(rep, row=i, elements=fl(ks[i])))
+            else:
+                other.append((None, dict(rep, what=f".M/.f of an ({n},6) array have shapes {Ms.shape}/{fs.shape}")))
+            t = PosVel(fresh(ss2d), system="trs")
+            kk = t.kepler
+            k2 = out(kk)
+            shape_check("trs2kepler of an (n,6) array", k2, (n, 6), dict(rep, states=[fl(r) for r in ss2d]))
+            if k2.size != n * 6:
+                return
+            k2 = k2.reshape(n, 6)
+            s2 = out(kk.trs)
+            shape_check("(n,6) state -> elements -> state", s2, (n, 6), dict(rep, states=[fl(r) for r in ss2d]))
+            for i in range(n):
+                add_backward(ss2d[i], k2[i], dict(rep, row=i))
+                fam["rte"].add(emit.pair(dys(ks[i]), dys(k2[i])), dict(rep, row=i, check="elements round trip", elements=fl(ks[i]), back=fl(k2[i])))
+                if s2.size == n * 6:
+                    fam["rt"].add(emit.pair(dys(ss2d[i]), dys(s2.reshape(n, 6)[i])),
+                                  dict(rep, row=i, check="state round trip < 1e-8", state=fl(ss2d[i]), back=fl(s2.reshape(n, 6)[i])))
+        except Exception as e:
+            crash(dict(rep, elements=[fl(r) for r in rows]), e)
+            return
+        ctx.case(("C", tuple(tuple(hexes(r)) for r in rows)), nontrivial=True,
+                 sample=dict(n=n, elements=[fl(r) for r in rows][:2]) if j == 1 else None)
+
+    HOW1 = "PosVel(k, system='kepler').trs -> PosVel(s, system='trs').kepler -> .trs, .M, .f"
+    HOWN = "PosVel(ks, system='kepler').trs / .M / .f, PosVel(ss, system='trs').kepler, .kepler.trs"
+
+    # ---- A. single states from elements: every octant combination of (Omega, omega, E)
+    n_single = 512 if q else 512 * 6
+    for idx in range(n_single):
+        k, oc = gen_elements(rng, idx)
+        ctx.count(f"octants:Omega{oc[0]}")
+        ctx.count(f"octants:omega{oc[1]}")
+        ctx.count(f"octants:E{oc[2]}")
+        ctx.count("e<0.03" if k[1] < 0.03 else "e>0.9" if k[1] > 0.9 else "e:mid")
+        ctx.count("retrograde" if k[2] > PI / 2 else "prograde")
+        raw = (idx % 4 == 3)        # every fourth case through the bare functions instead of the attributes
+        rep = dict(kind="single", via="transformation.kepler2trs/trs2kepler" if raw else "PosVel attributes", octants=list(oc), how=HOW1)
+        single(k, rep, raw, idx, "A")
+
+    # ---- D. directed boundary inputs (corpus, the same on every run and tier): every angle next to the edges of its principal
+    #      range and to the wrap points of trs2kepler (omega = u - f across 0 / 2 pi, Omega / E / f / u across +-pi), at distances
+    #      1e-3 ... 1e-10, and the edges of the e / i / a domain; single states and the same rows as arrays
+    directed = directed_elements()
+    for idx, (k, what) in enumerate(directed):
+        ctx.count("directed:" + what.split(" ")[0])
+        rep = dict(kind="directed", boundary=what, via="PosVel attributes" if idx % 3 else "transformation.kepler2trs/trs2kepler", how=HOW1)
+        single(k, rep, idx % 3 == 0, idx, "D")
+    for j in range(0, len(directed), 8):
+        rows = [k for k, _ in directed[j:j + 8]]
+        ctx.count(f"array:n={len(rows)}")
+        array_case(rows, dict(kind="directed-array", n=len(rows), boundary=[w for _, w in directed[j:j + 8]], how=HOWN), -1)
 
     # ---- B. states built directly (not images of kepler2trs): state -> elements -> state
-    n_state = 120 if q else 1200
+    n_state = 80 if q else 1000
     for idx in range(n_state):
         s = gen_state(rng, gm)
         rep = dict(kind="state", how="PosVel(s, system='trs').kepler, .kepler.trs")
@@ -310,44 +413,8 @@ def run(ctx):
     for j in range(n_arr):
         n = 1 if j % 8 == 0 else rng.choice([2, 3, 4, 5, 8, 16])
         rows = [gen_elements(rng, base + j * 16 + i)[0] for i in range(n)]
-        ks = np.array(rows)
-        rep = dict(kind="array", n=n, how="PosVel(ks, system='kepler').trs / .M / .f, PosVel(ss, system='trs').kepler, .kepler.trs")
         ctx.count(f"array:n={n}")
-        try:
-            p = PosVel(fresh(ks), system="kepler")
-            ss = out(p.trs)
-            Ms, fs = out(p.M), out(p.f)
-            good = shape_check("kepler2trs of an (n,6) array", ss, (n, 6), dict(rep, elements=[fl(r) for r in rows]))
-            ss2d = ss.reshape(n, 6) if ss.size == n * 6 else None
-            if ss2d is None:
-                continue
-            for i in range(n):
-                add_forward(ks[i], ss2d[i], dict(rep, row=i))
-            if Ms.size == n and fs.size == n:
-                for i in range(n):
-                    add_anom(ks[i][1], ks[i][5], Ms.ravel()[i], fs.ravel()[i], dict(rep, row=i, elements=fl(ks[i])))
-            else:
-                other.append((None, dict(rep, what=f".M/.f of an ({n},6) array have shapes {Ms.shape}/{fs.shape}")))
-            t = PosVel(fresh(ss2d), system="trs")
-            kk = t.kepler
-            k2 = out(kk)
-            shape_check("trs2kepler of an (n,6) array", k2, (n, 6), dict(rep, states=[fl(r) for r in ss2d]))
-            if k2.size != n * 6:
-                continue
-            k2 = k2.reshape(n, 6)
-            s2 = out(kk.trs)
-            shape_check("(n,6) state -> elements -> state", s2, (n, 6), dict(rep, states=[fl(r) for r in ss2d]))
-            for i in range(n):
-                add_backward(ss2d[i], k2[i], dict(rep, row=i))
-                fam["rte"].add(emit.pair(dys(ks[i]), dys(k2[i])), dict(rep, row=i, check="elements round trip", elements=fl(ks[i]), back=fl(k2[i])))
-                if s2.size == n * 6:
-                    fam["rt"].add(emit.pair(dys(ss2d[i]), dys(s2.reshape(n, 6)[i])),
-                                  dict(rep, row=i, check="state round trip < 1e-8", state=fl(ss2d[i]), back=fl(s2.reshape(n, 6)[i])))
-        except Exception as e:
-            crash(dict(rep, elements=[fl(r) for r in rows]), e)
-            continue
-        ctx.case(("C", tuple(tuple(hexes(r)) for r in rows)), nontrivial=True,
-                 sample=dict(n=n, elements=[fl(r) for r in rows][:2]) if j == 1 else None)
+        array_case(rows, dict(kind="array", n=n, how=HOWN), j)
 
     # ---------------------------------------------------------------- evaluate in Coq and decide
     for name, c in fam.items():
